@@ -390,9 +390,21 @@ fn run_workers(prop: &str, profile: &str, base: u64, lo: u64, hi: u64, nw: u64, 
             std::thread::sleep(std::time::Duration::from_millis(200));
         }
     });
+    let all_pids: Vec<u32> = handles.iter().map(|h| h.1).collect();
     let outs: Vec<WorkerOut> = handles.into_iter().map(|(h, _)| h.join().unwrap()).collect();
     done.store(true, std::sync::atomic::Ordering::Relaxed);
     let _ = wd.join();
+    // sandboxes of workers that did not get to remove their own (killed, aborted, exit())
+    for base in ["/dev/shm".to_string(), std::env::temp_dir().to_string_lossy().into_owned()] {
+        if let Ok(rd) = std::fs::read_dir(&base) {
+            for e in rd.filter_map(|e| e.ok()) {
+                let n = e.file_name().to_string_lossy().into_owned();
+                if all_pids.iter().any(|p| n.starts_with(&format!("n2sim-{}-", p))) {
+                    let _ = std::fs::remove_dir_all(e.path());
+                }
+            }
+        }
+    }
     outs
 }
 
